@@ -102,6 +102,25 @@ def dnsStep (v0 : Bool) (_ : Unit) (ws : List String) : Unit × String :=
     | _, _, _, _, _, _, _, _, _, _ => ((), "bad-op")
   | _ => ((), "bad-op")
 
+/-- full-stack DNS stream (`c14-dnssim`): `srv <datagram>` = what the real `DnsServer` answers,
+    `cli <name> <response>` = what `DnsClient::get_host_by_name(name)` returns for that response -/
+def dnsSimStep (v0 : Bool) (_ : Unit) (ws : List String) : Unit × String :=
+  match ws with
+  | ["case", id] => ((), s!"case {id}")
+  | ["srv", h] => match Driver.parseHex h with
+    | some bs => ((), match (if v0 then Dns.serverRespondV0 else Dns.serverRespond) bs with
+        | .ok (some r) => "reply " ++ Driver.toHex r
+        | .ok none => "noreply"
+        | .error e => errStr e)
+    | none => ((), "bad-op")
+  | ["cli", n, h] => match Driver.parseHex n, Driver.parseHex h with
+    | some name, some bs => ((), match (if v0 then Dns.clientHandleV0 else Dns.clientHandle) name bs with
+        | .ok (some ip) => s!"ip {ip}"
+        | .ok none => "err"
+        | .error e => errStr e)
+    | _, _ => ((), "bad-op")
+  | _ => ((), "bad-op")
+
 /-! DHCP -/
 def showDhcp (m : Dhcp.DhcpMessage) : String :=
   sp [toString m.op, toString m.htype, toString m.hlen, toString m.hops, toString m.transactionId,
@@ -125,8 +144,8 @@ def dhcpDec (I : DhcpImpl) (bs : Bytes) : String :=
   | .error e => errStr e
 
 def showDemux : Except DecErr Dhcp.DemuxOut → String
-  | .ok .errHeader => "err-header"
-  | .ok .errOther => "err-other"
+  | .ok .errHeader => "none"   -- only the observable effect is compared: both error results
+  | .ok .errOther => "none"    -- mean "this datagram did nothing"
   | .ok (.sent b) => "sent " ++ Driver.toHex b
   | .ok (.assigned ip) => s!"assigned {ip}"
   | .ok (.released ip) => s!"released {ip}"
@@ -171,6 +190,8 @@ def dispatch (sub : String) (i o : IO.FS.Stream) : Option (IO Unit) :=
   if sub == "c14-arp" || sub == "c14-rt-arp" then some (Driver.loop i o arpStep ())
   else if sub == "c14-dns" || sub == "c14-rt-dns" then some (Driver.loop i o (dnsStep false) ())
   else if sub == "c14-dns-v0" then some (Driver.loop i o (dnsStep true) ())
+  else if sub == "c14-dnssim" then some (Driver.loop i o (dnsSimStep false) ())
+  else if sub == "c14-dnssim-v0" then some (Driver.loop i o (dnsSimStep true) ())
   else if sub == "c14-dhcp" || sub == "c14-rt-dhcp" || sub == "c14-dhcps" then
     some (Driver.loop i o (dhcpStep dhcpCur) ())
   else if sub == "c14-dhcp-v0" || sub == "c14-dhcps-v0" then some (Driver.loop i o (dhcpStep dhcpV0) ())
